@@ -26,6 +26,8 @@
 (*   func, map, array   a function item, map{}, []                         *)
 (*   bigneg       -1000000000000                                           *)
 (*   hugeint      an xs:integer literal of 400 digits (beyond xs:double)   *)
+(*   num_inf, num_neginf, num_nan, num_negzero, num_huge, num_tiny         *)
+(*                xs:double INF, -INF, NaN, -0, 1.7e308, 5e-324            *)
 (*   baduri, nul  the strings 'http://[' and U+0000                        *)
 (*                                                                         *)
 (* A signature of CollationPositions has a $collation parameter; SetColl    *)
@@ -60,7 +62,8 @@ VARIABLES sig, args,
 vars == <<sig, args, calls, form, static>>
 
 AllClasses == {"valid", "attr", "elem", "untyped_bad", "untyped_ok", "empty", "wrong_str", "wrong_num",
-               "wrong_dur", "wrong_numstr", "seq", "func", "map", "array", "bigneg", "hugeint", "baduri", "nul"}
+               "wrong_dur", "wrong_numstr", "seq", "func", "map", "array", "bigneg", "hugeint", "baduri", "nul",
+               "num_inf", "num_neginf", "num_nan", "num_negzero", "num_huge", "num_tiny"}
 
 (* Collation arguments.  A $collation parameter selects process-global state (LC_COLLATE under a  *)
 (* process-wide lock), so a call with a collation class is made TWICE: "no call hangs" includes  *)
